@@ -253,9 +253,15 @@ class World(Sim):
                 self.excluded += 1
                 return None
             self.flags.append('uncommitted-update1-job-scheduled')
+        pstates = set()
+        if u['update_id'] != 1 and not u['committed'] and u['sent_jobs']:
+            absp = sorted({v for j in u['jobs'][:u['sent_jobs']] for kd, v in j['parents'] if kd == 'abs'})
+            if absp:
+                pstates = {x['state'] for x in self.q('SELECT job_id, state FROM jobs WHERE batch_id = %s', (u['batch_id'],)) if x['job_id'] in absp}
         r = await self._guard(self.m.fe._commit_update(self.app, u['batch_id'], u['update_id'], u['batch']['user'], self.db))
         if r['ok']:
             u['committed'] = True
+            r['parent_states_at_commit'] = sorted(pstates)
         return r
 
     async def op_submit(self, batch_i, groups, jobs):
@@ -279,6 +285,18 @@ class World(Sim):
         finally:
             self._in_submit = False
 
+    async def op_late_children(self, batch_i, kids):
+        """a later update (reserve + bunch + commit) whose jobs are children of existing jobs; parent ref -1 = the most recently
+        reserved job of the batch, k >= 0 = the k-th existing job"""
+        b = self._pick(self.batches, batch_i)
+        if b is None:
+            return None
+        n = len(self.jobs_of_batch(b))
+        if n == 0:
+            return None
+        kids = [dict(j, parents=[(n - 1) if p < 0 else p % n for p in j.get('parents', [])]) for j in kids]
+        return await self.op_submit(batch_i, [], kids)
+
     async def op_cancel(self, batch_i, group_ref=0):
         b = self._pick(self.batches, batch_i)
         if b is None:
@@ -291,7 +309,9 @@ class World(Sim):
             anc = self.q('SELECT job_group_id, ancestor_id FROM job_group_self_and_ancestors WHERE batch_id = %s', (b['id'],))
             up = {x['ancestor_id'] for x in anc if x['job_group_id'] == g}
             down = {x['job_group_id'] for x in anc if x['ancestor_id'] == g}
-            if (up | down) & canc:
+            # only 'descendant first, then its ancestor' records a second row on one chain; cancelling beneath an already
+            # cancelled ancestor is a no-op in the real procedure (ancestor walk) and stays in the generated histories
+            if down & canc and not (up & canc):
                 if 'is-job-cancelled-1242-two-cancelled-ancestors' in self.guards:
                     self.excluded += 1
                     return None
